@@ -31,6 +31,7 @@ type consCase struct {
 	PName             string // name of the second parameter ("" = none)
 	LocalCtx          bool   // `goverter:context <PName>` on the method
 	Shared            bool   // the function is shared with other converters / methods (same name for the same kind and parameter)
+	SelfOf            string // the shared extend function takes THIS converter interface as its first parameter (valid for that converter only)
 	ConvName, FuncNam string
 }
 
@@ -129,6 +130,9 @@ func (c *consCase) funcDecl() string {
 	case "mapfunc":
 		return fmt.Sprintf("func %s(source In%s) string { return \"\" }\n\n", c.FuncNam, second)
 	case "extend":
+		if c.SelfOf != "" {
+			return fmt.Sprintf("func %s(c %s, source X) Y { return Y{} }\n\n", c.FuncNam, c.SelfOf)
+		}
 		return fmt.Sprintf("func %s(source X%s) Y { return Y{} }\n\n", c.FuncNam, second)
 	}
 	return ""
@@ -137,6 +141,7 @@ func (c *consCase) funcDecl() string {
 func runConsumers(e *env) error {
 	e.rep.Rule += "; consumers: converters whose arg:context:regex is written on the command line / converter / method ({absent, ^ctx, ^oth, ^(ctx|oth)}^3, before or after the line naming the function) x the consumer of a signature (the method itself, default constructor, map|FUNC function, extend function) x the name of a second parameter {none, ctxA, othA, plain, local context}, each function either private to its converter or SHARED by all converters of the package (so a per-use classification cannot be cached across uses): function definitions produced by the real configuration stage (comments.ParseDocs + config per converter) vs Gv.Signature.parse under effPattern/consumerOpts (quick: a third of the order-free grid; thorough: all)"
 	var cases []*consCase
+	selfOwner := map[string]string{} // per CLI group: the converter a shared "takes the converter itself" function belongs to
 	id := 0
 	add := func(c consCase) {
 		c.ID = id
@@ -144,6 +149,13 @@ func runConsumers(e *env) error {
 		c.FuncNam = fmt.Sprintf("Fn%d", id)
 		if c.Shared {
 			c.FuncNam = "Sh" + strings.ToUpper(c.Kind[:1]) + c.Kind[1:] + "P" + c.PName
+		}
+		if c.SelfOf == "self" {
+			c.SelfOf = c.ConvName
+			selfOwner[c.CLI] = c.ConvName
+		}
+		if c.SelfOf != "" {
+			c.FuncNam = "ShSelf" + c.SelfOf
 		}
 		id++
 		cc := c
@@ -174,6 +186,13 @@ func runConsumers(e *env) error {
 					}
 				}
 			}
+		}
+	}
+	// a function whose first parameter is ONE converter's interface, named by that converter and by three others
+	for _, cli := range consPatterns[:3] {
+		add(consCase{Kind: "extend", CLI: cli, Shared: true, SelfOf: "self"})
+		for k := 0; k < 3; k++ {
+			add(consCase{Kind: "extend", CLI: cli, Shared: true, SelfOf: selfOwner[cli]})
 		}
 	}
 	byCLI := map[string][]*consCase{}
@@ -264,7 +283,11 @@ func runConsumers(e *env) error {
 			rxn := sx.H("rx")
 			for i := 0; i < sig.Params().Len(); i++ {
 				p := sig.Params().At(i)
-				pn.Add(sx.H("p", sx.S(p.Name()), sx.S(p.Type().String()), sx.B(false), sx.B(false)))
+				isConv := false
+				if co := b.Lookup("example.org/cons/p", c.ConvName); co != nil {
+					isConv = types.Identical(p.Type(), co.Type())
+				}
+				pn.Add(sx.H("p", sx.S(p.Name()), sx.S(p.Type().String()), sx.B(isConv), sx.B(false)))
 				for _, pat := range append(consPatterns[1:], ".*") {
 					rxn.Add(sx.H("m", sx.S(pat), sx.S(p.Name()), sx.B(regexp.MustCompile(pat).MatchString(p.Name()))))
 				}
